@@ -50,7 +50,7 @@ def j_rules(P, E):
     # ---- J1: fresh serial under one W guard; insert key == removed key
     sa, held, sh = _acq_field(P, src, "serial")
     r.instance(("J1", src.nid, "serial"), True, "serial acquisitions %s" % {k: v["mode"] for k, v in sa.items()})
-    if len(sa) != 1 or list(sa.values())[0]["mode"] != "W":
+    if len(sa) != 1 or list(sa.values())[0]["mode"] not in ("W", "M"):
         r.violate(("J1", src.nid, "serial not taken under one write guard"),
                   "the observer key is not produced by one write-locked increment-and-read: two subscribers can get the "
                   "same key and overwrite/remove each other", body=src)
@@ -281,7 +281,7 @@ def p_rules(P, E):
                     stores.append((i, j))
         subs = [c for c in up.calls if atom(c) == "subscribe"]
         r.instance(("P2", up.nid), True, "acq %s tests %s stores %s subscribe %s" % ({k: v["mode"] for k, v in sa.items()}, [c.bb for c in tests], stores, [c.bb for c in subs]))
-        if len(sa) != 1 or list(sa.values())[0]["mode"] != "W":
+        if len(sa) != 1 or list(sa.values())[0]["mode"] not in ("W", "M"):
             r.violate(("P2", root, "connect not under one write guard"),
                       "the `already connected?` test and the store of the new subscription are not one write-locked step "
                       "(acquisitions: %s): two first subscribers can both connect" % [v["mode"] for v in sa.values()], body=up)
@@ -431,7 +431,7 @@ def d_rules(P, E, H):
                       "under one guard is acted on under another, two threads can both decide `mine`" % (what, len(sel)), body=b)
             continue
         a = list(sel.values())[0]
-        if a["mode"] != "W":
+        if a["mode"] not in ("W", "M"):
             r.violate(("D1", b.nid, "%s decided under a read guard" % what),
                       "the %s is tested/updated under a %s guard: concurrent inputs are not excluded" % (what, a["mode"]), body=b)
         a0 = list(sel)[0]
